@@ -874,6 +874,15 @@ func (g *gen) choice(depth int, scope map[string]bool, nest int) *SNode {
 				cs.Children = append(cs.Children, g.leaf(scope, without(g.o.Types, "empty")))
 			}
 		}
+		if g.o.NonConfig {
+			// state data inside a case of a configuration choice
+			for _, k := range cs.Children {
+				if k.Kind != Choice && g.r.Intn(3) == 0 {
+					f := false
+					k.CfgStmt = &f
+				}
+			}
+		}
 		if len(cs.Children) == 1 && cs.Children[0].Kind != Choice && g.r.Intn(3) == 0 {
 			cs.Short = true
 			delete(scope, cs.Name)
